@@ -708,6 +708,13 @@ def scenarios(pid, tier):
             out.append(S(ct, ["req:a:w", "req:a", "ipost:a"], max_connections=2, h2script={"goaway": [1, 3]}, early=False))
         # requests racing onto a connection that turns out to be HTTP/1.1
         out.append(S("h2exp11", ["ipost:a", "ipost:a"], max_connections=2))
+        # shared encoder state: one caller is cancelled at every suspension point (waiting for the stream semaphore, the write
+        # lock, a pending write) while others use the same HTTP/2 connection; whatever the server then receives must still decode
+        for ct in (["h2pk"] if quick else ["h2pk", "h2alpn"]):
+            out.append(S(ct, ["req:a:w", "post:a:v", "req:a"], max_connections=1, cancels=1, styles=["scope", "native"]))
+            if not quick:
+                out.append(S(ct, ["req:a:w", "req:a", "post:a:v", "req:a:late"], max_connections=1, cancels=1, styles=["scope", "native"]))
+                out.append(S(ct, ["req:a:w", "post:a", "req:a:v", "req:a:late"], max_connections=1, cancels=1, styles=["scope", "native"]))
     if pid == "C02":
         # HTTP/2: DATA of one stream arriving in reads made on behalf of another (multiplexed responses in two
         # fragments each; a download's DATA arriving while an upload waits for flow-control credit)
